@@ -1,6 +1,6 @@
 (* C08 — include shares the caller's scope; render isolates the partial.
    Statements only; proofs in proofs/IsoProofs.v (built on the generic invariant of GenInv.v). *)
-From LV Require Import Base Value Stack Eval StackProofs ShapeProofs GenInv IsoProofs.
+From LV Require Import Base Value Stack Eval StackProofs ShapeProofs GenInv IsoProofs NonInterf.
 
 (* include = the partial's body inlined in the caller's runtime, with one more frame for the
    arguments which is popped afterwards: the partial sees and rebinds the caller's variables (its
@@ -28,6 +28,30 @@ Theorem registers_inner_only : forall O ps d l, GSH RA (render O ps d l).
 Proof. exact IsoProofs.registers_inner_only. Qed.
 Theorem frames_below_global_kept : forall O ps d l, GSH RB (render O ps d l).
 Proof. exact IsoProofs.frames_below_global_kept. Qed.
+(* ... and, conversely, nothing of the caller reaches it: observational non-interference.  Two callers whose
+   partial name and evaluated arguments coincide and whose counters (shared by every layer) are equal get the
+   SAME bytes and the same success/failure from the partial — whatever else their scopes, assigned
+   variables, loop frames, caller data, pending interrupts, cycle positions and ifchanged memories hold;
+   for every partial body, any nesting of includes and renders inside it, any sink budget *)
+Theorem render_output_depends_on_arguments_only : forall O ps d p args s1 s2 k,
+  eval_expr O p s1 = eval_expr O p s2 -> eval_args O args s1 [] = eval_args O args s2 [] ->
+  ixobj (fr s1) = ixobj (fr s2) ->
+  match rnode O ps (render O ps d) (NRender p None args) s1 k, rnode O ps (render O ps d) (NRender p None args) s2 k with
+  | (o1, _, k1), (o2, _, k2) => o1 = o2 /\ k1 = k2
+  end.
+Proof. exact NonInterf.render_noninterference. Qed.
+Theorem render_for_output_depends_on_arguments_only : forall O ps d p rng x args s1 s2 k,
+  eval_expr O p s1 = eval_expr O p s2 -> eval_range O rng s1 = eval_range O rng s2 -> eval_args O args s1 [] = eval_args O args s2 [] ->
+  ixobj (fr s1) = ixobj (fr s2) ->
+  match rnode O ps (render O ps d) (NRender p (Some (rng, x)) args) s1 k, rnode O ps (render O ps d) (NRender p (Some (rng, x)) args) s2 k with
+  | (o1, _, k1), (o2, _, k2) => o1 = o2 /\ k1 = k2
+  end.
+Proof. exact NonInterf.render_for_noninterference. Qed.
+(* the two-run invariant behind both: runtimes that agree above a sandbox (frames, the sandbox's own data,
+   the registers pushed since) and on the counters stay so under every template, with equal outcome and sink *)
+Theorem indistinguishable_runtimes_stay_so : forall O ps d l, G2 (render O ps d l).
+Proof. exact NonInterf.G2_render. Qed.
+
 (* a missing or broken partial is an error of the tag that names it, when executed — never a crash *)
 Theorem missing_partial_is_error : forall O ps rec p args s k pv a c,
   eval_expr O p s = Ok (VScalar pv) -> eval_args O args s [] = Ok a -> ps (to_kstr O (VScalar pv)) = Err c ->
@@ -47,6 +71,25 @@ Example c08_nonvacuous :
   end.
 Proof. vm_compute. repeat split; reflexivity. Qed.
 
+(* non-vacuity of non-interference: two callers that differ in data, assigned variables and pending
+   interrupt render the partial `{% if a %}A{% else %}-{% endif %}{{ v }}{% increment n %}` with argument v identically
+   (a is the caller's and invisible: both print -50) *)
+Example c08_ni_nonvacuous :
+  let a := [97%N] in let v := [118%N] in let nn := [110%N] in let p := [112%N] in
+  let body := [NIf true (CExists (EVar (SStr a) [])) [NText [65%N]] (Some [NText [45%N]]); NOutput (EVar (SStr v) [], []); NIncrement nn] in
+  let ps := fun n => if str_eqb n p then Ok body else Err EPartialMissing in
+  let s1 := est_build [(a, VScalar (SInt 1))] in
+  let s2 := set_regs (mkRegs (Some Brk) [] (Some [120%N])) (est_build [(a, VScalar (SInt 2)); (v, VScalar (SInt 7))]) in
+  let tag := NRender (ELit (VScalar (SStr p))) None [(v, ELit (VScalar (SInt 5)))] in
+  s1 <> s2 /\
+  match rnode no_oracle_v ps (render no_oracle_v ps 2) tag s1 sink0, rnode no_oracle_v ps (render no_oracle_v ps 2) tag s2 sink0 with
+  | (o1, _, k1), (o2, _, k2) => o1 = o2 /\ k1 = k2 /\ acc k1 <> []
+  end.
+Proof. split; [discriminate|]. vm_compute. repeat split; try reflexivity; discriminate. Qed.
+
+Print Assumptions render_output_depends_on_arguments_only.
+Print Assumptions render_for_output_depends_on_arguments_only.
+Print Assumptions indistinguishable_runtimes_stay_so.
 Print Assumptions include_is_inline.
 Print Assumptions render_view_closed.
 Print Assumptions render_isolates.
